@@ -2,7 +2,7 @@ CONSTANTS
   Dev = {"FirstPatternOnly"}
   AstOf <- MCAstOf
   FilesOf <- MCFilesOf
-  Tier = "dev"
+  Tier = "sens"
 INIT MCInit
 NEXT Next
 INVARIANTS Conforms NoCrash
